@@ -1,5 +1,113 @@
-(* Property C19 - only statements closed by `exact`, each followed by Print Assumptions. *)
+(* Property C19 - only statements closed by `exact`, each followed by Print Assumptions.
+
+   Clause of the property                                     theorem(s)
+   ---------------------------------------------------------  ------------------------------------------
+   simplifyPath is idempotent                                 simplify_idempotent
+   ... and lexically equivalent to its input                  simplify_equivalent, simplify_lexically_equivalent,
+                                                              lexical_equivalence_is_normal_form, simplify_canonical
+   directory name + base name recompose the path              dir_plus_base_recomposes, dir_plus_base_denotes_path
+   stem + extension recompose the base name                   stem_plus_extension_recomposes, base_minus_extension
+   (scanners = the reference "before/after the last ...")     scanners_match_reference
+   getRelativePath(from,to) appended to from denotes to       relative_path_denotes_target
+*)
 From Coq Require Import ZArith List Bool.
-From Path Require Import PathSpec PathModel PathProofs.
+From Path Require Import PathSpec PathModel PathProofs RelProofs.
 Import ListNotations.
 Local Open Scope Z_scope.
+
+(* ---- part A: path functions, for all byte strings ------------------------------------------- *)
+
+Theorem simplify_idempotent : forall p, simplifyPath (simplifyPath p) = simplifyPath p.
+Proof. exact simplify_idempotent_l. Qed.
+Print Assumptions simplify_idempotent.
+
+Theorem simplify_equivalent : forall p, components (simplifyPath p) = normalise (components p).
+Proof. exact simplify_equivalent_l. Qed.
+Print Assumptions simplify_equivalent.
+
+Theorem simplify_lexically_equivalent : forall p, lex_equiv (simplifyPath p) p.
+Proof. exact simplify_lex_equiv_l. Qed.
+Print Assumptions simplify_lexically_equivalent.
+
+Theorem lexical_equivalence_is_normal_form :
+  forall p q, lex_equiv p q <-> normalise (components p) = normalise (components q).
+Proof. exact lex_equiv_iff_normalise. Qed.
+Print Assumptions lexical_equivalence_is_normal_form.
+
+Theorem simplify_canonical : forall p q, lex_equiv p q <-> simplifyPath p = simplifyPath q.
+Proof. exact simplify_canonical_l. Qed.
+Print Assumptions simplify_canonical.
+
+Theorem simplify_is_reference_text : forall p, simplifyPath p = canon p.
+Proof. exact simplify_spec. Qed.
+Print Assumptions simplify_is_reference_text.
+
+Theorem dir_plus_base_recomposes : forall p,
+  (exists s, is_sep s = true /\ getDirectoryName p ++ s :: getBaseName p [] = p /\ sepfree (getBaseName p []))
+  \/ (sepfree p /\ getDirectoryName p = [46] /\ getBaseName p [] = p).
+Proof. exact dir_base_cases. Qed.
+Print Assumptions dir_plus_base_recomposes.
+
+Theorem dir_plus_base_denotes_path : forall p,
+  simplifyPath (getDirectoryName p ++ 47 :: getBaseName p []) = simplifyPath p.
+Proof. exact dir_base_lexical. Qed.
+Print Assumptions dir_plus_base_denotes_path.
+
+Theorem stem_plus_extension_recomposes : forall p,
+  (getBaseName p [] = getStem p [] ++ 46 :: getExtension p /\ dotfree (getExtension p))
+  \/ (dotfree (getBaseName p []) /\ getStem p [] = getBaseName p [] /\ getExtension p = []).
+Proof. exact stem_ext_cases. Qed.
+Print Assumptions stem_plus_extension_recomposes.
+
+Theorem base_minus_extension : forall p e,
+  getBaseName p e = getBaseName p [] \/
+  getBaseName p [] = getBaseName p e ++ e \/
+  getBaseName p [] = getBaseName p e ++ 46 :: e.
+Proof. exact base_ext_cases. Qed.
+Print Assumptions base_minus_extension.
+
+Theorem scanners_match_reference : forall p e,
+  getDirectoryName p = spec_dir p /\ getBaseName p [] = spec_base p /\ getStem p [] = spec_stem p /\
+  getExtension p = spec_ext p /\ getBaseName p e = spec_base_ext p e /\ isAbsolutePath p = spec_is_absolute p.
+Proof. exact scanners_reference. Qed.
+Print Assumptions scanners_match_reference.
+
+Theorem relative_path_denotes_target : forall from to,
+  rel_hyp from to = true ->
+  simplifyPath (rel_joined from (getRelativePath from to)) = simplifyPath to.
+Proof. exact relative_path_denotes_target_l. Qed.
+Print Assumptions relative_path_denotes_target.
+
+(* ---- non-vacuity --------------------------------------------------------------------------------- *)
+
+(* "/a/./b//../c/" simplifies to "/a/c" *)
+Example ex_simplify : simplifyPath [47;97;47;46;47;98;47;47;46;46;47;99;47] = [47;97;47;99].
+Proof. vm_compute. reflexivity. Qed.
+(* "../a/.." keeps its leading ".." *)
+Example ex_simplify_up : simplifyPath [46;46;47;97;47;46;46] = [46;46].
+Proof. vm_compute. reflexivity. Qed.
+(* the root stays the root *)
+Example ex_simplify_root : simplifyPath [47;97;47;46;46] = [47].
+Proof. vm_compute. reflexivity. Qed.
+(* "a/b/../c" and "./a//c" are lexically equivalent, "a" and "/a" are not *)
+Example ex_equiv : simplifyPath [97;47;98;47;46;46;47;99] = simplifyPath [46;47;97;47;47;99].
+Proof. vm_compute. reflexivity. Qed.
+Example ex_not_equiv : simplifyPath [97] <> simplifyPath [47;97].
+Proof. vm_compute. discriminate. Qed.
+(* "d/x.tar.gz": directory "d", base "x.tar.gz", stem "x.tar", extension "gz" *)
+Example ex_parts :
+  let p := [100;47;120;46;116;97;114;46;103;122] in
+  (getDirectoryName p, getBaseName p [], getStem p [], getExtension p)
+  = ([100], [120;46;116;97;114;46;103;122], [120;46;116;97;114], [103;122]).
+Proof. vm_compute. reflexivity. Qed.
+Example ex_base_ext : getBaseName [100;47;120;46;103;122] [103;122] = [120].
+Proof. vm_compute. reflexivity. Qed.
+(* from "a/b/c" to "a/d": "../../d"; from "a/b" to "c" (nothing in common): "../../c" *)
+Example ex_relative : rel_hyp [97;47;98;47;99] [97;47;100] = true /\
+  getRelativePath [97;47;98;47;99] [97;47;100] = [46;46;47;46;46;47;100].
+Proof. vm_compute. auto. Qed.
+Example ex_relative_nothing_common : rel_hyp [97;47;98] [99] = true /\
+  getRelativePath [97;47;98] [99] = [46;46;47;46;46;47;99].
+Proof. vm_compute. auto. Qed.
+Example ex_relative_root : rel_hyp [47] [47;97] = true /\ getRelativePath [47] [47;97] = [97].
+Proof. vm_compute. auto. Qed.
